@@ -294,6 +294,7 @@ func (mq *MessageQueue) scrubResponses(requestIDs []graphsync.RequestID) uint64 
 	totalFreed := uint64(0)
 	for _, builder := range mq.builders {
 		totalFreed = builder.ScrubResponses(requestIDs)
+		mq.verifAt("scrub", builder.topic, builder)
 		if !builder.Empty() {
 			newBuilders = append(newBuilders, builder)
 		}
